@@ -383,6 +383,9 @@ def ite(c, a, b):
     return mk("ite", c, a, b)
 
 
+_OPERATOR_BIN = {"operator.mul": "*", "operator.add": "+", "operator.sub": "-", "operator.truediv": "/", "operator.and_": "&", "operator.or_": "|", "operator.mod": "%", "operator.floordiv": "//"}
+
+
 def call(fn, args=(), kw=()):
     """fn: a term (func/ext/builtin/meth/...) ; args: tuple of terms ; kw: tuple of (name, term)."""
     name = callee_name(fn)
@@ -393,6 +396,14 @@ def call(fn, args=(), kw=()):
         return cmp(CMP_FUNCS[name], args[0], args[1])
     if name == "builtins.len" and len(args) == 1 and not kw and args[0].op in ("tuple", "list") and not any(z.op == "star" for z in args[0].a):
         return const(len(args[0].a))  # the length of a display
+    if name == "functools.reduce" and len(args) == 2 and not kw and args[0].op == "ext" and args[0].a[0] in _OPERATOR_BIN and args[1].op in ("tuple", "list") and 1 <= len(args[1].a) <= 8 and not any(z.op == "star" for z in args[1].a):
+        # reduce(operator.mul, (a, b, c)) is (a * b) * c
+        acc = args[1].a[0]
+        for z in args[1].a[1:]:
+            acc = binop(_OPERATOR_BIN[args[0].a[0]], acc, z)
+        return acc
+    if name in _OPERATOR_BIN and len(args) == 2 and not kw:
+        return binop(_OPERATOR_BIN[name], args[0], args[1])
     if name in ("builtins.tuple", "builtins.list") and len(args) == 1 and not kw and args[0].op in ("tuple", "list") and not any(z.op == "star" for z in args[0].a):
         # tuple([a, b]) is (a, b); list((a, b)) is [a, b]
         return tup(args[0].a) if name == "builtins.tuple" else lst(args[0].a)
